@@ -1,4 +1,4 @@
-"""python -m vf.realrun PROP cases.json out.json
+"""python -m vf.realrun [--cold] PROP cases.json out.json
 
 Replays cases of a check on REAL nested tmpfs mounts: must be started inside a
 private mount namespace (`unshare -m --propagation private`).  The shim's
@@ -10,10 +10,18 @@ import sys
 
 
 def main():
-    pid, inp, outp = sys.argv[1:4]
+    mode = 'real'
+    argv = sys.argv[1:]
+    if argv and argv[0] == '--cold':
+        mode = 'cold'
+        argv = argv[1:]
+    pid, inp, outp = argv[:3]
     from . import driver, run, world
-    world.REAL_MOUNTS = True
-    run.DEFAULT_PLAN = {'real_mounts': True}
+    if mode == 'real':
+        world.REAL_MOUNTS = True
+        run.DEFAULT_PLAN = {'real_mounts': True}
+    else:
+        run.MODE = 'cold'
     run.prepare()
     prop = driver.load_prop(pid)
     if hasattr(prop, 'setup'):
